@@ -161,7 +161,7 @@ pub fn run(ctx: &mut Ctx) -> (&'static str, String, bool) {
     ctx.extra("exhaustive_max_len", json!(maxlen));
 
     // random longer strings: (a) over an encodable repertoire, (b) arbitrary Unicode (no codepage clause)
-    let n = ctx.tier.pick(100_000u64, 2_000_000u64);
+    let n = ctx.tier.pick(400_000u64, 20_000_000u64);
     let base = ctx.rng.fork(12);
     let enc_pool: Vec<char> = "^^^^0123456789vacdsqtlrhLGCETBJHSK|*:\\/?\"<>#  abcXYZ_-.éþÿßÀěščřžЖяюΩλώışğūņķあア美日本語한국어中文測試ﾏ".chars().collect();
     let parts: Vec<Part> = (0u64..16)
